@@ -100,7 +100,7 @@ CLAIMED["C13"] = {
              "logs[kept].ref_i, every kept entry is re-based by exactly that value, the log is truncated by the kept index and only older "
              "checkpoints are freed; the history side passes 'newest committed index + 1', scans strictly below GVT and truncates by the returned "
              "value; restore starts from the newest entry, can only stop at ref_i <= target, returns that entry's own ref_i, frees only newer "
-             "entries and cuts the log right after it. NOT decided: the state actually obtained by a rollback after a collection."),
+             "entries and cuts the log right after it; the frontier scan reads a history element's timestamp only when the element is proven a processed message (both tag bits clear) or is the last one. NOT decided: the state actually obtained by a rollback after a collection."),
     "note": TRUST,
 }
 
@@ -140,7 +140,11 @@ CLAIMED["C11"] = {
              "arithmetic is the inverse of the sender's; rs_calloc's size product is overflow-checked; at each of the 11 expansions of the dynamic "
              "array's grow step (history, checkpoint log, heaps, free lists, arenas) the decision, evaluated for all count <= capacity <= 12, leaves "
              "room for the element(s) written next and the block is reallocated to the updated capacity * sizeof(element); array_push checks before "
-             "it stores; the memmoves of array_truncate_first (fossil collection) and array_add_at cover exactly the elements that move."),
+             "it stores; the memmoves of array_truncate_first (fossil collection) and array_add_at cover exactly the elements that move; the share of "
+             "total_sent[] a thread zeroes stays inside the array for rank counts up to MAX_NODES; rs_realloc copies min(requested, old block) bytes "
+             "and the old block size it is told is 1 << the order found by climbing the tree from the block; a history element is dereferenced "
+             "(directly or by a callee) only when proven untagged or last; the serial loop does not use the event after releasing the heap's "
+             "top (heap_min / heap_extract of one heap name the same element)."),
     "note": TRUST + " Doubles are treated as reals in interval reasoning.",
 }
 CLAIMED["C12"] = {
@@ -182,7 +186,8 @@ CLAIMED["C08"] = {
              "the thread's open round is completed before the first shutdown barrier; control_msg_process and ctrl_msgs[] cover every control "
              "code with the right handler; LP_FINI is dispatched exactly once per LP; the counter votes depend on is conserved (C07.1); for 1..8 "
              "ranks the control-message broadcast sends one notice to every rank, and for 1..8 threads one worker is started per thread id and all are "
-             "joined before the global finalisation. NOT "
+             "joined before the global finalisation; for 1..8 ranks x 1..8 threads the shares of total_sent[] the threads zero after a message "
+             "count cover every rank's entry (a stale entry makes a rank wait forever). NOT "
              "decided: liveness under all interleavings of the last vote or a stop request with an open GVT round, MPI progress, spin-loop bounds."),
     "note": TRUST,
 }
